@@ -19,6 +19,10 @@ bool op_assign() {
     });
     if (!s) return false;
     bool resized = (s->nr != d->nr || s->nc != d->nc);
+    // input class: Matrix_ handle whose storage is 1-d (deep copy of a row/column shaped source)
+    // reshaped to a genuinely 2-d size; generated rarely and keyed separately
+    bool reshape1d = resized && d->kind == MO && s->nr > 1 && s->nc > 1 && lib1d(*d);
+    if (reshape1d && !r.coin(0.15)) return false;
     std::vector<C> L = logicalC(*s);
     std::string st = tag(*s);
     if (resized) destroyDependents(*d);
@@ -34,8 +38,9 @@ bool op_assign() {
     });
     if (resized) { d->own = newOwnerModel(s->nr, s->nc, d->t); d->nr = s->nr; d->nc = s->nc; d->map = identityMap(d->nr * d->nc); }
     for (int e = 0; e < d->nr * d->nc; ++e) for (int k = 0; k < K; ++k) lset(*d, e, k, L[(size_t)e * K + k]);
-    cover(resized ? "assign-realloc" : (d->isOwner ? "assign-owner" : "assign-view"), *d);
-    compareAll(okey(resized ? "assign-realloc" : (d->isOwner ? "assign-owner" : "assign-view"), *d), d);
+    cover(reshape1d ? "assign-realloc-1d-storage-to-2d" : resized ? "assign-realloc" : (d->isOwner ? "assign-owner" : "assign-view"), *d);
+    if (reshape1d) compareAll("reshape-1d-storage-to-2d:assign-realloc", d);
+    else compareAll(okey(resized ? "assign-realloc" : (d->isOwner ? "assign-owner" : "assign-view"), *d), d);
     return true;
 }
 
@@ -110,6 +115,9 @@ bool op_resize() {
     if (d->fixC >= 0) n = d->fixC;
     if (v == 3) { if (d->fixR > 1 || d->fixC > 1 || (d->fixR == 1 && d->fixC == 1)) v = 0; }
     if (v == 3) { m = d->fixR == 1 ? 1 : 0; n = d->fixC == 1 ? 1 : 0; if (shapeOf(d->kind) == 0 && d->fixR < 0 && d->fixC < 0) { m = 0; n = 0; } }
+    if (v == 3 && !d->canClear) v = 0;
+    bool reshape1d = v != 3 && d->kind == MO && m > 1 && n > 1 && lib1d(*d);
+    if (reshape1d && !r.coin(0.15)) { if (r.coin()) m = 1; else n = 1; reshape1d = false; }
     bool same = (m == d->nr && n == d->nc);
     if (!same) destroyDependents(*d);
     static const char* nm[] = {"resize", "resizeKeep", "resizeKeep", "clear"};
@@ -142,8 +150,9 @@ bool op_resize() {
         });
     }
     std::string cls = std::string(nm[v]) + (same ? "-same-size" : (m * n == 0 ? "-to-empty" : (m <= onr && n <= onc ? "-shrink" : (m >= onr && n >= onc ? "-grow" : "-mixed"))));
-    cover(cls, *d);
-    compareAll(okey(cls, *d), d);
+    cover(reshape1d ? cls + "-1d-storage-to-2d" : cls, *d);
+    if (reshape1d && !same) compareAll(std::string("reshape-1d-storage-to-2d:") + nm[v], d);
+    else compareAll(okey(cls, *d), d);
     return true;
 }
 #include "matrix_big_ops3.h"
